@@ -502,6 +502,9 @@ class C14(Check):
                 return m2 if m2 is not None else m
             if got is not True:
                 ctx.violate(dict(sig, invariant="inplace_returns_self"), {"op": op}, idx)
+            if env.enforce and collide_unequal and w == "ior":
+                # |= adds the operand's items: an unequal item under an existing key must be refused
+                ctx.violate(dict(sig, invariant="must_raise", want="ValueError", other=op["other_kind"]), {"op": op}, idx)
             if collide_unequal and (env.enforce or op["other_kind"] == "set"):
                 m2 = self.resync(env, s)  # semantics of unequal items under a shared key are not pinned down here
                 return m2 if m2 is not None else m
@@ -523,6 +526,9 @@ class C14(Check):
                         {"op": op, "msg": strip_addr(str(got_exc))[:160]}, idx)
             return m
         if env.enforce and collide_unequal:
+            if name == "binop" and w == "or":
+                # the union would hold two unequal items under one key: building it adds one onto the other
+                ctx.violate(dict(sig, invariant="must_raise", want="ValueError", other=op["other_kind"]), {"op": op}, idx)
             return m
         if collide_unequal and (op["other_kind"] == "set" or w in ("eq", "ne")):
             # a built-in set identifies items by equality, and == between KeyedSets compares the mapping: with
